@@ -161,6 +161,11 @@ def build_schemes(data: List[SchemeDatum]) -> Dict[str, Type[MafScheme]]:
         scheme_cls = build_scheme_class(
             datum=datum, base_scheme=schemes.get(extends) if extends else None
         )
+        if scheme_cls.annotation_spec() in schemes:
+            raise ValueError(
+                "Two schemes found with annotation specification '%s'"
+                % str(scheme_cls.annotation_spec())
+            )
         schemes[scheme_cls.annotation_spec()] = scheme_cls
         del data[datum_index]  # type: ignore
     return schemes
